@@ -4,6 +4,7 @@ import (
 	"fmt"
 	"go/types"
 	"math/big"
+	"regexp"
 	"strconv"
 	"strings"
 )
@@ -35,6 +36,31 @@ type Env struct {
 	touched map[string]bool
 	lazy    func(name string) Term // if set, supplies heap versions not present in st
 	inOld   bool
+	backing map[Term]Term // inside recursive spec bodies: slice parameter -> its backing-array parameter
+	recFuel Term          // inside recursive spec bodies: fuel passed to recursive calls
+	backingDeref map[Term]string
+}
+
+func (env *Env) derefOf(b Term) string {
+	for x := env; x != nil; x = x.parent {
+		if x.backingDeref != nil {
+			if d, ok := x.backingDeref[b]; ok {
+				return d
+			}
+		}
+	}
+	return ""
+}
+
+func (env *Env) lookupBacking(t Term) (Term, bool) {
+	for x := env; x != nil; x = x.parent {
+		if x.backing != nil {
+			if b, ok := x.backing[t]; ok {
+				return b, true
+			}
+		}
+	}
+	return "", false
 }
 
 func (env *Env) child() *Env {
@@ -311,6 +337,9 @@ func (env *Env) indexTV(b, i TV) TV {
 	e := env.e
 	switch u := b.Ty.Underlying().(type) {
 	case *types.Slice:
+		if bt, ok := env.lookupBacking(b.T); ok {
+			return TV{app("select", app(env.derefOf(bt), bt), app("+", app("s_off", b.T), i.T)), u.Elem()}
+		}
 		h := env.heap(e.elemHeap(u.Elem()))
 		return TV{app("select", app("select", h, app("s_arr", b.T)), app("+", app("s_off", b.T), i.T)), u.Elem()}
 	case *types.Array:
@@ -462,7 +491,6 @@ func (e *Enc) bitop(op string, a, b Term) Term {
 		case "&":
 			e.axioms = append(e.axioms,
 				"(assert (forall ((a Int) (b Int)) (! (=> (and (>= a 0) (>= b 0)) (and (>= (bit_and a b) 0) (<= (bit_and a b) a) (<= (bit_and a b) b))) :pattern ((bit_and a b)))))",
-				"(assert (forall ((a Int) (b Int)) (! (= (bit_and a b) (bit_and b a)) :pattern ((bit_and a b)))))",
 				"(assert (forall ((a Int)) (! (= (bit_and a a) a) :pattern ((bit_and a a)))))")
 		case "|":
 			e.axioms = append(e.axioms,
@@ -538,9 +566,40 @@ func (env *Env) callRecSpec(sf *SpecFunc, args []TV) TV {
 	e := env.e
 	name := "rec_" + sanitize(sf.Name)
 	info := e.recInfo(sf)
-	var ts []Term
-	for _, a := range args {
+	fuel := Term("(FS (FS FZ))")
+	for x := env; x != nil; x = x.parent {
+		if x.recFuel != "" {
+			fuel = x.recFuel
+			break
+		}
+	}
+	ts := []Term{fuel}
+	for i, a := range args {
 		ts = append(ts, a.T)
+		if info.arrParam[i] != "" {
+			// backing array of the slice argument, in the caller's current state
+			if bt, ok := env.lookupBacking(a.T); ok {
+				ts = append(ts, bt)
+			} else {
+				// pass an integer handle of the backing array (quantifying over array-sorted
+				// variables in the unfolding axioms makes z3 give up); hid is a function, so
+				// equal arrays get equal handles, and deref(hid(T)) = T is stated per call site.
+				T := app("select", env.heap(info.arrParam[i]), app("s_arr", a.T))
+				es := info.elemSort[i]
+				hid, deref := "hid_"+sanitize(es), "deref_"+sanitize(es)
+				e.decl("fn:"+hid, fmt.Sprintf("(declare-fun %s ((Array Int %s)) Int)", hid, es))
+				e.decl("fn:"+deref, fmt.Sprintf("(declare-fun %s (Int) (Array Int %s))", deref, es))
+				fact := fmt.Sprintf("(= (%s (%s %s)) %s)", deref, hid, T, T)
+				if qv := boundVarsIn(T); len(qv) > 0 {
+					specFail("recursive spec %s applied to a slice that depends on a quantified variable", sf.Name)
+				}
+				if !e.declared["fact:"+fact] {
+					e.declared["fact:"+fact] = true
+					e.lateFacts = append(e.lateFacts, "(assert "+fact+")")
+				}
+				ts = append(ts, app(hid, T))
+			}
+		}
 	}
 	for _, h := range info.heaps {
 		ts = append(ts, env.heap(h))
@@ -549,9 +608,15 @@ func (env *Env) callRecSpec(sf *SpecFunc, args []TV) TV {
 }
 
 type recInfo struct {
-	heaps  []string
-	result types.Type
+	heaps    []string
+	result   types.Type
+	arrParam map[int]string // slice parameter index -> element heap whose inner array is passed along
+	elemSort map[int]string
 }
+
+var boundVarRe = regexp.MustCompile(`\bq[0-9]+_[A-Za-z0-9_]+`)
+
+func boundVarsIn(t Term) []string { return boundVarRe.FindAllString(t, -1) }
 
 var recInfos = map[*Enc]map[string]*recInfo{}
 
@@ -568,8 +633,18 @@ func (e *Enc) recInfo(sf *SpecFunc) *recInfo {
 	if err != nil {
 		specFail("%v", err)
 	}
-	ri := &recInfo{result: rt}
+	ri := &recInfo{result: rt, arrParam: map[int]string{}, elemSort: map[int]string{}}
 	m[sf.Name] = ri
+	for i, p := range sf.Params {
+		pt, err := e.P.resolveType(p.Type, sf.Pkg)
+		if err != nil {
+			specFail("%v", err)
+		}
+		if sl, ok := pt.Underlying().(*types.Slice); ok {
+			ri.arrParam[i] = e.elemHeap(sl.Elem())
+			ri.elemSort[i] = e.sortOf(sl.Elem())
+		}
+	}
 	// pass 1: translate the body with symbolic heaps to learn which heaps are read
 	mk := func(heaps []string) (Term, map[string]bool, []string) {
 		ri.heaps = heaps
@@ -578,7 +653,10 @@ func (e *Enc) recInfo(sf *SpecFunc) *recInfo {
 		env := &Env{e: e, vars: map[string]TV{}, st: st, old: st, pkg: sf.Pkg, alloc0: "alloc_formal", touched: touched}
 		env.lazy = func(name string) Term { return "hp_" + sanitize(name) }
 		var binders []string
-		for _, p := range sf.Params {
+		env.backing = map[Term]Term{}
+		env.backingDeref = map[Term]string{}
+		env.recFuel = "fuel"
+		for i, p := range sf.Params {
 			pt, err := e.P.resolveType(p.Type, sf.Pkg)
 			if err != nil {
 				specFail("%v", err)
@@ -586,6 +664,16 @@ func (e *Enc) recInfo(sf *SpecFunc) *recInfo {
 			n := "a_" + sanitize(p.Name)
 			env.vars[p.Name] = TV{n, pt}
 			binders = append(binders, fmt.Sprintf("(%s %s)", n, e.sortOf(pt)))
+			if ri.arrParam[i] != "" {
+				sl := pt.Underlying().(*types.Slice)
+				bn := "b_" + sanitize(p.Name)
+				es := e.sortOf(sl.Elem())
+				e.decl("fn:hid_"+sanitize(es), fmt.Sprintf("(declare-fun hid_%s ((Array Int %s)) Int)", sanitize(es), es))
+				e.decl("fn:deref_"+sanitize(es), fmt.Sprintf("(declare-fun deref_%s (Int) (Array Int %s))", sanitize(es), es))
+				env.backing[n] = bn
+				env.backingDeref[bn] = "deref_" + sanitize(es)
+				binders = append(binders, fmt.Sprintf("(%s Int)", bn))
+			}
 		}
 		body := env.tr(sf.Body)
 		return body.T, touched, binders
@@ -600,8 +688,23 @@ func (e *Enc) recInfo(sf *SpecFunc) *recInfo {
 	for _, h := range heaps {
 		binders = append(binders, fmt.Sprintf("(hp_%s %s)", sanitize(h), e.heapSortOf(h)))
 	}
-	e.decls = append(e.decls, fmt.Sprintf("(define-fun-rec rec_%s (%s) %s %s)", sanitize(sf.Name), strings.Join(binders, " "), e.sortOf(rt), body))
-	e.note("recursive spec function " + sf.Name + " (define-fun-rec)")
+	// Dafny-style fuel encoding: an uninterpreted function with one-step unfolding
+	// axioms, so that the solver unfolds a bounded number of times per ground term.
+	e.decl("sort:Fuel", "(declare-datatypes ((Fuel 0)) (((FZ) (FS (fpred Fuel)))))")
+	var sorts, names []string
+	for _, b := range binders {
+		f := strings.Fields(strings.Trim(b, "()"))
+		names = append(names, f[0])
+		sorts = append(sorts, strings.TrimPrefix(b[1:len(b)-1], f[0]+" "))
+	}
+	fname := "rec_" + sanitize(sf.Name)
+	e.decls = append(e.decls, fmt.Sprintf("(declare-fun %s (Fuel %s) %s)", fname, strings.Join(sorts, " "), e.sortOf(rt)))
+	allB := "(fuel Fuel) " + strings.Join(binders, " ")
+	lhs := fmt.Sprintf("(%s (FS fuel) %s)", fname, strings.Join(names, " "))
+	e.axioms = append(e.axioms,
+		fmt.Sprintf("(assert (forall (%s) (! (= %s %s) :pattern (%s))))", allB, lhs, body, lhs),
+		fmt.Sprintf("(assert (forall (%s) (! (= %s (%s fuel %s)) :pattern (%s))))", allB, lhs, fname, strings.Join(names, " "), lhs))
+	e.note("recursive spec function " + sf.Name + " (fuel-bounded unfolding axioms)")
 	return ri
 }
 
@@ -694,6 +797,10 @@ func (env *Env) trCall(x *ECall) TV {
 	case "f64":
 		argN(1)
 		return TV{app("(_ to_fp 11 53)", "RNE", app("to_real", env.tr(x.Args[0]).T)), tyF64}
+	case "trunc":
+		argN(1)
+		e.decl("fn:f2i", "(declare-fun f2i (F64) Int)")
+		return TV{app("f2i", env.tr(x.Args[0]).T), tyInt}
 	case "tag":
 		argN(1)
 		return TV{app("iface_tag", env.tr(x.Args[0]).T), tyInt}
